@@ -35,6 +35,8 @@ where
                     data_centers: new_data_centers,
                 } => {
                     let mut new_total = 0;
+                    // Data centers which are no longer part of the cluster must go.
+                    data_centers.clear();
                     for (name, nodes) in new_data_centers {
                         new_total += nodes.len();
                         data_centers.insert(name, NodeCycler::from(nodes));
